@@ -213,6 +213,20 @@ def extract_case(transcript_path, case_id):
     return ops
 
 
+def last_case(transcript_path):
+    """(case id, op lines with results stripped) of the LAST case of a saved transcript — the case during which a
+    harness that prints each op before executing it died."""
+    cid, ops = None, []
+    with open(transcript_path, errors="replace") as f:
+        for line in f:
+            line = line.rstrip("\n")
+            if line.startswith("case "):
+                cid, ops = line.split()[1], []
+            elif cid is not None and line and not line.startswith("#"):
+                ops.append(line.split(" => ")[0])
+    return cid, ops
+
+
 def ddmin(items, test):
     """Classic delta debugging: smallest sublist (order kept) for which test() stays true."""
     n = 2
